@@ -338,6 +338,16 @@ def iter_next(ex, st, it):
             for st2 in ex.branch(st, vec.len > pos):
                 raise MirUnsupported("collection model shorter than its feasible length")
         return
+    if it.sort == "Keys":
+        base = it.info if not isinstance(it.info, tuple) else it.info[0]
+        pos = 0 if not isinstance(it.info, tuple) else it.info[1]
+        mp = ex.read(st, base.cell, base.projs)
+        if pos < len(mp.items):
+            for st2 in ex.branch(st, mp.len > pos):
+                yield st2, Opaque("Keys", info=(base, pos + 1)), some(Ref(base.cell, base.projs + (("index", pos), ("field", 0, None))))
+        for st2 in ex.branch(st, mp.len <= pos):
+            yield st2, it, none()
+        return
     if it.sort == "Zip":
         a, b = it.info
         for st2, a2, ra in iter_next(ex, st, a):
@@ -645,6 +655,8 @@ def m_name_eq(ex, st, callee, args, dest_ty):
 VALUE_MODELS = [
     (R(r"^<&?(FeelNumber|FeelDaysAndTimeDuration|FeelYearsAndMonthsDuration) as PartialEq>::(eq|ne)$"), m_rank_eq),
     (R(r"^<&?&?(FeelNumber|FeelDaysAndTimeDuration|FeelYearsAndMonthsDuration|std::string::String|String) as (PartialOrd|Ord)>::(lt|le|gt|ge|partial_cmp|cmp)$"), m_rank_ord),
+    # a generic helper over `T: PartialOrd` (the MIR is polymorphic): dispatched on the values, which must be of the ranked kinds
+    (R(r"^<&?&?T as (PartialOrd|Ord)>::(lt|le|gt|ge|partial_cmp|cmp)$"), m_rank_ord),
     (R(r"^<&?(FeelDate) as PartialOrd>::(lt|le|gt|ge)$"), m_partial_ord_via_cmp),
     (R(r"^Feel(Time|DateTime)::(equal|before|after|before_or_equal|after_or_equal)$"), m_temporal_rel),
     (R(r"^Feel(Time|DateTime)::between$"), m_temporal_between),
@@ -663,7 +675,7 @@ VALUE_MODELS = [
     (R(r"^BTreeMap::<.*>::insert$"), m_btree_insert),
     (R(r"^<(std::slice::Iter(Mut)?<.*>|Zip<.*>|std::collections::btree_map::Iter<.*>|Enumerate<.*>) as Iterator>::next$"), m_iter_next),
     (R(r"^<std::slice::Iter(Mut)?<.*> as Iterator>::zip::<.*>$"), m_iter_zip),
-    (R(r"^<(std::slice::Iter(Mut)?<.*>|Zip<.*>|Enumerate<.*>) as Iterator>::(all|any)::<.*>$"), m_iter_all_any),
+    (R(r"^<(std::slice::Iter(Mut)?<.*>|Zip<.*>|Enumerate<.*>|std::collections::btree_map::Keys<.*>) as Iterator>::(all|any)::<.*>$"), m_iter_all_any),
     (R(r"^<std::slice::Iter(Mut)?<.*> as Iterator>::enumerate$"), m_iter_enumerate),
     (R(r"^<\[.*; \d+\] as IntoIterator>::into_iter$"), m_array_into_iter),
     (R(r"^<std::array::IntoIter<.*> as Iterator>::next$"), m_iter_next),
